@@ -447,3 +447,11 @@ class NilsimsaDigest(Case):
 
 for c in (TlshLoad, TlshDistance, TlshGate, TlshUpdate, TlshPack, NilsimsaDigest):
     register(c())
+
+
+# ---- lemmas for the stubs this check relies on (see props.common.Borrowed) ----
+from props.common import Borrowed, REGISTRY
+from props import c01 as _c01
+register(Borrowed(REGISTRY['C01.reverse_byte'], 'C19', 'reverse_byte'))
+from props import c08 as _c08
+register(Borrowed(REGISTRY['C08.unary'], 'C19', 'hw', keep=lambda sh: sh.get('op') == 'hw'))
